@@ -61,6 +61,10 @@ func Run(ctx *common.Ctx) {
 	var descs []any
 	distinct := map[string]bool{}
 	fn := 0
+	// round 5: the cases whose default forms read earlier parameters go to shards of their own (type xcase)
+	var xterms []string
+	var xdescs []any
+	sink, dsink := &terms, &descs
 	// emit calls the function on the arguments, reads the trace of default forms evaluated, classifies the outcome and
 	// records the case
 	emit := func(name, def string, ds []docArg, gds, args, gargs []string) (string, common.Outcome) {
@@ -120,10 +124,10 @@ func Run(ctx *common.Ctx) {
 		ctx.Hist("outcome:" + strings.SplitN(gout, " ", 3)[0] + strings.TrimPrefix(strings.SplitN(gout+" ", " ", 3)[1], "["))
 		if !distinct[term] {
 			distinct[term] = true
-			terms = append(terms, term)
+			*sink = append(*sink, term)
 			d := map[string]any{"defun": def, "call": call, "result": shown, "default_forms_evaluated": gtrace}
-			descs = append(descs, d)
-			if len(terms)%211 == 1 {
+			*dsink = append(*dsink, d)
+			if len(*sink)%211 == 1 {
 				ctx.Sample(d)
 			}
 		}
@@ -488,11 +492,216 @@ func Run(ctx *common.Ctx) {
 			}
 		}
 	}
+
+	// ---- round 5: default forms that read an EARLIER parameter (a required one, a supplied one, or one that got
+	// its value from a default form of its own) ----
+	// The form is (if (integerp y) (+ y k) nil), the model's FRef y k; every form reports its evaluation.
+	sink, dsink = &xterms, &xdescs
+	type xparam struct {
+		marker string
+		form   int // 0: no default form, 1: literal lit, 2: reference to parameter ref plus add
+		lit    int
+		ref    int
+		add    int
+	}
+	xmarkers := map[string]string{"&optional": "POptional", "&rest": "PRest", "&key": "PKey", "&aux": "PAux", "&allow-other-keys": "PAllow"}
+	// xdefine defines the function and returns what emit needs; ids are assigned to the variables in order
+	xdefine := func(name string, xl []xparam) (def string, ds []docArg, gds []string, ok bool) {
+		var ll, body []string
+		id := 0
+		for _, xp := range xl {
+			if xp.marker != "" {
+				ds = append(ds, docArg{marker: xp.marker})
+				ll = append(ll, xp.marker)
+				gds = append(gds, fmt.Sprintf("{| x_name := %s; x_def := None |}", xmarkers[xp.marker]))
+				continue
+			}
+			d := docArg{id: id, ref: -1}
+			id++
+			body = append(body, fmt.Sprintf("(if (boundp '%s) %s :unbound)", pnames[d.id], pnames[d.id]))
+			switch xp.form {
+			case 1:
+				x := xp.lit
+				d.def, d.form, d.traced = &x, fmt.Sprint(x), true
+				gds = append(gds, fmt.Sprintf("{| x_name := PVar %d; x_def := Some (FLit (%d)%%Z) |}", d.id, x))
+			case 2:
+				x := 0
+				d.def, d.traced = &x, true
+				d.form = fmt.Sprintf("(if (integerp %s) (+ %s %d) nil)", pnames[xp.ref], pnames[xp.ref], xp.add)
+				gds = append(gds, fmt.Sprintf("{| x_name := PVar %d; x_def := Some (FRef %d (%d)%%Z) |}", d.id, xp.ref, xp.add))
+			default:
+				gds = append(gds, fmt.Sprintf("{| x_name := PVar %d; x_def := None |}", d.id))
+			}
+			if d.def != nil {
+				ll = append(ll, fmt.Sprintf("(%s %s)", pnames[d.id], d.lispDefault()))
+			} else {
+				ll = append(ll, pnames[d.id])
+			}
+			ds = append(ds, d)
+		}
+		def = fmt.Sprintf("(defun %s (%s) (list %s))", name, strings.Join(ll, " "), strings.Join(body, " "))
+		if o := common.EvalIn(scope, def); o.Err != "" {
+			ctx.Violate("defun with a well-formed lambda list failed", def, o.Err+": "+o.Msg, nil)
+			return def, ds, gds, false
+		}
+		return def, ds, gds, true
+	}
+	L, R := func(v int) xparam { return xparam{form: 1, lit: v} }, func(ref, add int) xparam { return xparam{form: 2, ref: ref, add: add} }
+	M := func(m string) xparam { return xparam{marker: m} }
+	// enumerated on every run: five lambda lists with chains of forms x all short positional vectors (plus one with
+	// nil first) x all sequences of at most two pairs over the declared keys
+	for ei, el := range []struct {
+		xl     []xparam
+		maxPos int
+		keys   []int
+	}{
+		{[]xparam{M("&optional"), L(1), R(0, 10), R(1, 100)}, 4, nil},
+		{[]xparam{{}, M("&key"), R(0, 2), R(1, 1)}, 2, []int{1, 2}},
+		{[]xparam{M("&optional"), L(2), M("&key"), R(0, 0), M("&aux"), R(1, 5)}, 1, []int{1}},
+		{[]xparam{M("&optional"), {}, R(0, 3)}, 3, nil},
+		{[]xparam{{}, M("&optional"), R(0, 1), M("&rest"), {}, M("&aux"), R(1, 7), R(2, 1)}, 4, nil},
+	} {
+		name := fmt.Sprintf("vfx%d", ei)
+		def, ds, gds, ok := xdefine(name, el.xl)
+		if !ok {
+			continue
+		}
+		keySeqs := [][]int{nil}
+		for _, a := range el.keys {
+			keySeqs = append(keySeqs, []int{a})
+			for _, b := range el.keys {
+				keySeqs = append(keySeqs, []int{a, b})
+			}
+		}
+		for p := 0; p <= el.maxPos+1; p++ {
+			for _, ks := range keySeqs {
+				var args, gargs []string
+				np := p
+				if p == el.maxPos+1 {
+					np = 1 // the extra vector: nil as the first argument
+				}
+				for i := 0; i < np; i++ {
+					if p == el.maxPos+1 {
+						args, gargs = append(args, "nil"), append(gargs, "ANil")
+					} else {
+						args, gargs = append(args, fmt.Sprint(i+1)), append(gargs, fmt.Sprintf("AInt %d", i+1))
+					}
+				}
+				for i, k := range ks {
+					args = append(args, kwName(k), fmt.Sprint(100+i))
+					gargs = append(gargs, fmt.Sprintf("AKw %d", k), fmt.Sprintf("AInt %d", 100+i))
+				}
+				emit(name, def, ds, gds, args, gargs)
+				ctx.Hist("enumerated:forms-reading-earlier-parameters")
+			}
+		}
+	}
+	// random lambda lists around that block
+	nx, perX := 40, 8
+	if ctx.Thorough() {
+		nx, perX = 500, 16
+	}
+	for xi := 0; xi < nx; xi++ {
+		var xl []xparam
+		nvars := 0
+		xv := func(withDef bool) xparam {
+			xp := xparam{}
+			if withDef {
+				switch r := ctx.Rng.Intn(100); {
+				case r < 55 && nvars > 0:
+					xp = R(ctx.Rng.Intn(nvars), ctx.Rng.Intn(9))
+					ctx.Hist("form:reads-an-earlier-parameter")
+				case r < 75:
+					xp = L(50 + ctx.Rng.Intn(40))
+					ctx.Hist("form:literal")
+				default:
+					ctx.Hist("form:none")
+				}
+			}
+			nvars++
+			return xp
+		}
+		nreq, nopt := ctx.Rng.Intn(3), ctx.Rng.Intn(4)
+		for i := 0; i < nreq; i++ {
+			xl = append(xl, xv(false))
+		}
+		if nopt > 0 {
+			xl = append(xl, M("&optional"))
+			for i := 0; i < nopt; i++ {
+				xl = append(xl, xv(true))
+			}
+		}
+		hasRest := ctx.Rng.Chance(30)
+		if hasRest {
+			xl = append(xl, M("&rest"), xv(false))
+		}
+		var keyIDs []int
+		hasKey := ctx.Rng.Chance(50)
+		if hasKey {
+			xl = append(xl, M("&key"))
+			for i := 1 + ctx.Rng.Intn(3); i > 0; i-- {
+				keyIDs = append(keyIDs, nvars)
+				xl = append(xl, xv(true))
+			}
+		}
+		if ctx.Rng.Chance(40) {
+			xl = append(xl, M("&aux"))
+			for i := 1 + ctx.Rng.Intn(2); i > 0; i-- {
+				xl = append(xl, xv(true))
+			}
+		}
+		name := fmt.Sprintf("vfy%d", xi)
+		def, ds, gds, ok := xdefine(name, xl)
+		if !ok {
+			continue
+		}
+		for k := 0; k < perX; k++ {
+			var args, gargs []string
+			npos := nreq + ctx.Rng.Intn(nopt+2)
+			if k == 0 {
+				npos = nreq // every optional parameter defaulted
+			}
+			if hasRest && ctx.Rng.Chance(40) {
+				npos += 1 + ctx.Rng.Intn(2)
+			}
+			if nreq > 0 && ctx.Rng.Chance(8) {
+				npos = ctx.Rng.Intn(nreq)
+			}
+			for i := 0; i < npos; i++ {
+				if ctx.Rng.Chance(8) {
+					args, gargs = append(args, "nil"), append(gargs, "ANil")
+				} else {
+					z := 1 + ctx.Rng.Intn(30)
+					args, gargs = append(args, fmt.Sprint(z)), append(gargs, fmt.Sprintf("AInt %d", z))
+				}
+			}
+			if hasKey && k > 0 {
+				for i := ctx.Rng.Intn(3); i > 0; i-- {
+					id := common.Pick(ctx.Rng, keyIDs)
+					if ctx.Rng.Chance(12) {
+						id = len(pnames) - 1 // an unknown key
+					}
+					args, gargs = append(args, kwName(id)), append(gargs, fmt.Sprintf("AKw %d", id))
+					if ctx.Rng.Chance(10) {
+						args, gargs = append(args, "nil"), append(gargs, "ANil")
+					} else {
+						z := 100 + ctx.Rng.Intn(50)
+						args, gargs = append(args, fmt.Sprint(z)), append(gargs, fmt.Sprintf("AInt %d", z))
+					}
+				}
+			}
+			emit(name, def, ds, gds, args, gargs)
+			ctx.Hist("random:forms-reading-earlier-parameters")
+		}
+	}
+	sink, dsink = &terms, &descs
 	ctx.Meta.DistinctNontrivial = len(distinct)
-	ctx.Meta.Rule = "lambda lists: 0-3 required x 0-2 &optional (60% with a default: half a literal, the others a form to evaluate such as (+ 70 4), (+ zqglobal 4) or (+ zqa 2) with zqa a required parameter - the model then gets the literal that form evaluates to in the call at hand) x &rest (35%, a third of them spelled &body) x &key with 0-3 keys (50%, a quarter of them with &allow-other-keys) x &aux (25%); the parameter names zqc and zqf are also global variables; per list 14 (thorough 30) argument vectors: required + 0..optional+1 positional integers (10% fewer than required; with &rest half of them 0-3 more; 6% a keyword naming a key parameter instead; 25% a keyword naming the &aux parameter when the list has &rest and &aux but no &key) followed by 0-3 keyword/value pairs (76% a declared key, 8% :allow-other-keys with a true or nil value, 6% the name of some other parameter, 10% an unknown key; 7% missing value, duplicates possible); calls of a lambda list with &allow-other-keys, and a fifth of the others with &key (half when the key section is empty) after a leading :allow-other-keys 1, are permissive: at least one pair, 45% declared, 7% :allow-other-keys, 28% the name of another parameter, 20% unknown; 6% of the other calls start with :allow-other-keys nil :allow-other-keys 1 (the first counts: not permissive) and go on like a permissive one; the body reports every parameter or :unbound; for 45% of the lambda lists the first four calls are repeated through a caller compiled while the function still had another lambda list (redefinition history); every default form is wrapped with 70% probability so that it reports its own evaluation (it pushes the parameter's index on a global list that is read after the call); distinct = distinct (lambda list, argument vector) pairs. ENUMERATED on every run (about 90 cases): five fixed lambda lists whose every default form reports its evaluation - (&optional o1 o2), (r &optional o1 &key k1 k2), (&key k1 k2 &aux x), (r &optional o1 o2 &rest rr &aux x), (r &optional o1 &key k1 &allow-other-keys) - each with ALL argument vectors of 0 .. positional parameters + 1 (+2 with &rest) integers followed by ALL sequences of 0, 1 or 2 keyword/value pairs over a two-keyword alphabet (the two declared keys; one declared and one unknown key for the &allow-other-keys list)"
+	ctx.Meta.Rule = "lambda lists: 0-3 required x 0-2 &optional (60% with a default: half a literal, the others a form to evaluate such as (+ 70 4), (+ zqglobal 4) or (+ zqa 2) with zqa a required parameter - the model then gets the literal that form evaluates to in the call at hand) x &rest (35%, a third of them spelled &body) x &key with 0-3 keys (50%, a quarter of them with &allow-other-keys) x &aux (25%); the parameter names zqc and zqf are also global variables; per list 14 (thorough 30) argument vectors: required + 0..optional+1 positional integers (10% fewer than required; with &rest half of them 0-3 more; 6% a keyword naming a key parameter instead; 25% a keyword naming the &aux parameter when the list has &rest and &aux but no &key) followed by 0-3 keyword/value pairs (76% a declared key, 8% :allow-other-keys with a true or nil value, 6% the name of some other parameter, 10% an unknown key; 7% missing value, duplicates possible); calls of a lambda list with &allow-other-keys, and a fifth of the others with &key (half when the key section is empty) after a leading :allow-other-keys 1, are permissive: at least one pair, 45% declared, 7% :allow-other-keys, 28% the name of another parameter, 20% unknown; 6% of the other calls start with :allow-other-keys nil :allow-other-keys 1 (the first counts: not permissive) and go on like a permissive one; the body reports every parameter or :unbound; for 45% of the lambda lists the first four calls are repeated through a caller compiled while the function still had another lambda list (redefinition history); every default form is wrapped with 70% probability so that it reports its own evaluation (it pushes the parameter's index on a global list that is read after the call); distinct = distinct (lambda list, argument vector) pairs. ENUMERATED on every run (about 90 cases): five fixed lambda lists whose every default form reports its evaluation - (&optional o1 o2), (r &optional o1 &key k1 k2), (&key k1 k2 &aux x), (r &optional o1 o2 &rest rr &aux x), (r &optional o1 &key k1 &allow-other-keys) - each with ALL argument vectors of 0 .. positional parameters + 1 (+2 with &rest) integers followed by ALL sequences of 0, 1 or 2 keyword/value pairs over a two-keyword alphabet (the two declared keys; one declared and one unknown key for the &allow-other-keys list). ROUND 5, default forms that read an EARLIER parameter (the form (if (integerp y) (+ y k) nil), the model's FRef y k, every form reporting its evaluation; shards forms_*): ENUMERATED on every run (about 60 cases) - (&optional (a 1) (b a+10) (c b+100)), (x &key (k x+2) (l k+1)), (&optional (o 2) &key (k o) &aux (u k+5)), (&optional n (m n+3)), (r &optional (o r+1) &rest rr &aux (u o+7) (w rr+1)) - each with all positional vectors of 0 .. n+1 integers, one vector with nil first, and all sequences of at most two pairs over the declared keys; plus 40 (thorough 500) random lambda lists (0-2 required, 0-3 &optional, &rest 30%, &key 50% with 1-3 keys, &aux 40% with 1-2; each &optional/&key/&aux parameter 55% a form reading a random parameter on its left - required, optional, rest, key or aux -, 20% a literal, 25% none) x 8 (16) argument vectors (the first with no optional argument at all, so that forms read defaulted parameters; 8% nil arguments, 0-2 key pairs, 12% unknown key)"
 	header := "From C04 Require Import Model Spec Corr.\nOpen Scope N_scope.\n"
 	footer := "Definition res := Eval vm_compute in check_all cases.\nPrint res.\nDefinition gcount := Eval vm_compute in guard_count cases.\nPrint gcount.\nDefinition supplied := Eval vm_compute in supplied_count cases.\nPrint supplied.\n"
 	ctx.WriteShards("cases", header, "case", footer, terms, descs, 16)
+	xfooter := "Definition res := Eval vm_compute in check_xall cases.\nPrint res.\nDefinition xgcount := Eval vm_compute in xguard_count cases.\nPrint xgcount.\nDefinition chained := Eval vm_compute in chained_count cases.\nPrint chained.\n"
+	ctx.WriteShards("forms", header, "xcase", xfooter, xterms, xdescs, 4)
 	ctx.ReplayKnownLisp()
 	RunArity(ctx)
 }
